@@ -27,6 +27,7 @@ mod mon_c14;
 mod mon_c15;
 mod mon_c16;
 mod mon_c17;
+mod mon_c20;
 
 use report::Report;
 use std::time::Instant;
@@ -125,6 +126,7 @@ fn main() {
         "C01" => mon_c01::run(&ctx, &mut rep),
         "C02" => mon_c02::run(&ctx, &mut rep),
         "C17" => mon_c17::run(&ctx, &mut rep),
+        "C20" => mon_c20::run(&ctx, &mut rep),
         "C12" => mon_c12::run(&ctx, &mut rep),
         "C09" => mon_c09::run(&ctx, &mut rep),
         "C10" => mon_c10::run(&ctx, &mut rep),
